@@ -101,6 +101,50 @@ class Effects:
         self.memo[path] = (mut, com)
         return self.memo[path]
 
+    def ordered(self, path, depth=0):
+        """order-sensitive summary of a function: (may mutate, may commit, pairs) where each pair (mutating call, committing
+        call, location, enclosing function) is a commit point that can be reached *after* a table mutation inside this
+        function's own execution - found in its control-flow graph, or inherited from a callee. A commit hidden behind the
+        mutation in one and the same callee (prune, then flush "because the batch was large") is seen here; the flat summary
+        only knows that the callee does both. Transaction-manager entry points contribute no pairs of their own: what they
+        do with the shared transaction, and that a commit precedes the body they run, is R4's evaluated table."""
+        key = ("ord", path)
+        if key in self.memo:
+            return self.memo[key]
+        self.memo[key] = (False, False, [])
+        m0, c0 = self.summary(path)
+        if path not in self.f.bodies or (path.startswith("store::fs::Store::") and path[len("store::fs::Store::"):] in self.MANAGERS) or depth > 8:
+            self.memo[key] = (m0, c0, [])
+            return self.memo[key]
+        b = self.f.bodies[path]
+        pairs = []
+        sites = []
+        for bi, t in b.calls():
+            mut = com = False
+            ct = tables.call_table(t, self.types)
+            if ct and ct[1] in tables.WRITE_OPS and not ct[2]:
+                mut = True
+            if t["f"].get("name") == "commit" and callee_matches(t, r"TransactionAndTables::commit|WriteTransaction::commit"):
+                com = True
+            for q in self.bind(t):
+                if q == path:
+                    continue
+                m2, c2, p2 = self.ordered(q, depth + 1)
+                mut, com = mut or m2, com or c2
+                pairs += p2
+            if mut or com:
+                sites.append((bi, t, mut, com))
+        succ = b.succ()
+        for mbi, mt, m, _ in sites:
+            if not m:
+                continue
+            after = b.reach_from_edges(succ[mbi])
+            for cbi, ct2, _, c in sites:
+                if c and cbi in after and cbi != mbi:
+                    pairs.append((mt["f"].get("name"), ct2["f"].get("name"), ct2["sp"], path))
+        self.memo[key] = (m0 or any(x[2] for x in sites), c0 or any(x[3] for x in sites), pairs)
+        return self.memo[key]
+
     def call_effect(self, t):
         mut = com = False
         ct = tables.call_table(t, self.types)
@@ -148,7 +192,18 @@ def r1(ctx):
         pairs = {}
         for a, c, sp in bad:
             pairs.setdefault("%s->%s" % (a, c), sp)
-        if not pairs:
+        # the same question inside the callees (order-sensitive summaries): a step of the operation that mutates and then
+        # reaches a commit point by itself
+        inner = {}
+        for a, c, sp, where in eff.ordered(op)[2]:
+            if where != op:
+                inner.setdefault("%s->%s" % (a, c), (sp, where))
+        for pair, (sp, where) in sorted(inner.items()):
+            a, c = pair.split("->")
+            ctx.bad("C06.R1", op, "commit-point-after-mutation[%s in %s]" % (pair, where.split("::")[-1]),
+                    "inside `%s`, a step of this operation, the call `%s` can commit the shared transaction after `%s` has mutated a table: what the operation "
+                    "did so far becomes durable without the rest of it" % (where, c, a), sp)
+        if not pairs and not inner:
             ctx.ok("C06.R1", op, "no-commit-point-after-first-mutation", "one transaction access per operation after the first mutation (mutating calls: %s)" % [m[1]["f"].get("name") for m in muts], b.sp)
         for pair, sp in sorted(pairs.items()):
             a, c = pair.split("->")
